@@ -26,6 +26,15 @@ Sub-spaces (`sub` of a case):
   cgmap     every invalid coarse-graining map of {-2..2}^n (1-D n <= 4, 2x2) + non-integer entries + wrong length,
             through coarsegrain_system and simulate_script(cgmap=)
 
+Process history (verdicts must not depend on what the process did before): the `keys` sub-space also presents, to
+every reader dictionary at every nesting level, EVERY key that is legal for another kind of dictionary, after valid
+dictionaries of every kind have been parsed inside the case (forward order with a second pass, reverse order, and
+right after a dictionary of the kind that owns the key); every other class replays the valid counterpart on the
+same objects between the invalid inputs (valid - invalid - valid - invalid ..., class `Interleave`) and first uses
+"what is invalid here" where it is valid (positions on a larger space, labels / indices in a larger network,
+dimensions on the fields they belong to, unit symbols in their own slot, environment indices with a longer list,
+mixed-environment maps on a one-environment grid).
+
 Alias tables and mandatory keys are written out below from documentation/json_and_dict_doc.rst and the readers' own
 declared synonym lists; names on which documentation and code disagree (reaction "stoechiometry"/"stoichiometry",
 reaction "environments", system "chstt_map"/"chemostats") are never used, neither as valid nor as invalid keys.
@@ -185,6 +194,27 @@ def accept(out, cls, key, desc, f):
         return None
     out.count("valid_accepted:" + cls)
     return r
+
+
+class Interleave:
+    """Process history, same objects: valid - invalid - valid - invalid ...  The valid counterpart `f` is replayed
+    on the SAME objects right before the 1st and 2nd invalid input and then before every `every`-th one (and right
+    before the single input of a narrowed replay); it must keep being accepted, and the invalid inputs that follow
+    it must keep being rejected (that part is the ordinary `reject`)."""
+
+    def __init__(self, out, cls, key, desc, f, every=16, after=None):
+        self.out, self.cls, self.key, self.desc, self.f, self.every, self.after = out, cls, key, desc, f, every, after
+        self.i = 0
+
+    def tick(self):
+        i = self.i
+        self.i += 1
+        if self.f is None or not (i < 2 or i % self.every == 0):
+            return
+        r = accept(self.out, self.cls, self.key, self.desc + " (valid call replayed between invalid inputs)", self.f)
+        self.out.count("valid_interleaved:" + self.cls)
+        if self.after is not None:
+            self.after(r)
 
 
 # =====================================================================================================
@@ -376,7 +406,86 @@ def _apply_key_defect(reader, node, defect):
         raise ValueError(kind)
 
 
+# names that only the code knows for a reader (legal there, so they can be MISPLACED elsewhere)
+CODE_ONLY = {"system": ["chemostats"], "reaction": ["stoichiometry"], "grid": ["type"]}
+OWNER_BASE = {"script": "script/grid", "system": "system/grid", "network": "network", "species": "species/0",
+              "reaction": "reaction/0", "grid": "grid", "graph": "graph", "node": "node/0", "edge": "edge",
+              "unitarray": "unitarray/state", "unitssystem": "unitssystem"}
+HEAVY_TOPS = ("script/grid", "script/graph", "system/graph")     # quick: these run "plain" and "misplaced-after-all" only
+KEY_MODES = ("plain", "misplaced-after-all", "misplaced-after-all-reverse", "misplaced-right-after-owner")
+
+
+def _legal(reader):
+    return [n for g in GROUPS[reader] for n in g] + CODE_ONLY.get(reader, [])
+
+
+def _all_names():
+    out = []
+    for r in GROUPS:
+        for n in _legal(r) + DISPUTED.get(r, []):
+            if n not in out:
+                out.append(n)
+    return out
+
+
+def _owners(name):
+    return [r for r in GROUPS if name in _legal(r)]
+
+
+def _misplaced(reader):
+    """Every key (canonical or alias) that is legal for some OTHER reader and known neither to the documentation nor
+    to the code for `reader`."""
+    known = _known(reader)
+    return [n for n in _all_names() if n not in known and _owners(n)]
+
+
+def _parse_valid(out, name, why):
+    reader, mk = TOP[name]
+    return accept(out, "keys-history", "%s:keys:%s" % (P, name),
+                  "%s_from_dict(base dictionary %s) %s" % (reader, name, why), lambda: READERS[reader](mk()))
+
+
+def _keys_misplaced(case, out):
+    """Process history: a key that is legal for ANOTHER kind of dictionary must be rejected whatever was parsed
+    before in this process.  The history is produced explicitly inside the case."""
+    top, mode = case["top"], case["mode"]
+    reader, mk = TOP[top]
+    fn = READERS[reader]
+    base = mk()
+    only = case.get("only")
+    if mode == "misplaced-after-all":
+        for name, _r, _m in TOPS:
+            _parse_valid(out, name, "as history")
+    elif mode == "misplaced-after-all-reverse":
+        for name, _r, _m in reversed(TOPS):
+            _parse_valid(out, name, "as history (reverse order)")
+    if _parse_valid(out, top, "before the misplaced keys") is None:
+        return False
+    sites = _sites(reader, base)
+    passes = (1, 2) if mode == "misplaced-after-all" else (1,)
+    for npass in passes:
+        for path, site in sites:
+            where = "/".join(str(p) for p in path) or "(top level)"
+            for k in _misplaced(site):
+                item = {"path": path, "key": k, "pass": npass}
+                if not _selected(only, item):
+                    continue
+                owners = _owners(k)
+                if mode == "misplaced-right-after-owner":
+                    for o in owners:
+                        _parse_valid(out, OWNER_BASE[o], "right before the misplaced key %r" % k)
+                d = copy.deepcopy(base)
+                _node(d, path)[k] = 1
+                reject(out, "misplaced-key", "%s:misplaced-key:%s:legal-for-%s" % (P, site, owners[0]),
+                       "[%s, pass %d] %s_from_dict with key %r (legal for %s dictionaries only) in the %s dictionary at %s"
+                       % (mode, npass, reader, k, "/".join(owners), site, where), lambda: fn(d), item)
+        _parse_valid(out, top, "after the misplaced keys of pass %d" % npass)
+    return True
+
+
 def _keys(case, out):
+    if case.get("mode", "plain") != "plain":
+        return _keys_misplaced(case, out)
     top = case["top"]
     reader, mk = TOP[top]
     fn = READERS[reader]
@@ -386,12 +495,15 @@ def _keys(case, out):
     if r is None:
         return False
     only = case.get("only")
+    inter = Interleave(out, "keys", "%s:keys:%s" % (P, top), "%s_from_dict(base dictionary %s)" % (reader, top),
+                       lambda: fn(copy.deepcopy(base)), every=16)
     for path, site in _sites(reader, base):
         node0 = _node(base, path)
         for defect in _key_defects(site, node0):
             item = {"path": path, "defect": defect}
             if not _selected(only, item):
                 continue
+            inter.tick()
             d = copy.deepcopy(base)
             _apply_key_defect(site, _node(d, path), defect)
             where = "/".join(str(p) for p in path) or "(top level)"
@@ -532,7 +644,7 @@ def _dim_attempt(field, route, v, ctx):
         if route == "ctor":
             return (lambda: Species("A", **{attr: v})), None
         if route == "setter":
-            sp = Species("A")
+            sp = ctx.setdefault("obj", Species("A"))
             return (lambda: setattr(sp, attr, v)), None
         return (lambda: species_from_dict({"label": "A", attr: v})), None
     if field.startswith("reaction."):
@@ -542,24 +654,24 @@ def _dim_attempt(field, route, v, ctx):
         if route == "ctor":
             return (lambda: Reaction(eq, **{which: v})), None
         if route == "setter":
-            r = Reaction(eq)
+            r = ctx.setdefault("obj", Reaction(eq))
             return (lambda: setattr(r, which, v)), None
         if route == "set_k":
-            r = Reaction(eq)
+            r = ctx.setdefault("obj", Reaction(eq))
             return ((lambda: r.set_k(v, 0)) if which == "kf" else (lambda: r.set_k(0, v))), None
         return (lambda: reaction_from_dict({"eq": eq, ("k+" if which == "kf" else "k-"): v})), None
     if field == "grid.cell_vol":
         if route == "ctor":
             return (lambda: RDGridSpace(cell_vol=v)), None
         if route == "setter":
-            g = RDGridSpace()
+            g = ctx.setdefault("obj", RDGridSpace())
             return (lambda: setattr(g, "cell_vol", v)), None
         return (lambda: rdgridspace_from_dict({"cell_volume": v})), None
     if field == "node.volume":
         if route == "ctor":
             return (lambda: RDGraphSpaceNode(volume=v)), None
         if route == "setter":
-            nd = RDGraphSpaceNode()
+            nd = ctx.setdefault("obj", RDGraphSpaceNode())
             return (lambda: setattr(nd, "volume", v)), None
         return (lambda: rdgraphspacenode_from_dict({"volume": v})), None
     if field in ("edge.surface", "edge.distance"):
@@ -567,7 +679,7 @@ def _dim_attempt(field, route, v, ctx):
         if route == "ctor":
             return (lambda: RDGraphSpaceEdge(0, 1, **{attr: v})), None
         if route == "setter":
-            ed = RDGraphSpaceEdge(0, 1)
+            ed = ctx.setdefault("obj", RDGraphSpaceEdge(0, 1))
             return (lambda: setattr(ed, attr, v)), None
         return (lambda: rdgraphspaceedge_from_dict({"nodes": [0, 1], attr: v})), None
     if field.startswith("script."):
@@ -576,13 +688,13 @@ def _dim_attempt(field, route, v, ctx):
             if route == "ctor":
                 return (lambda: RDScript(ctx["system"], v)), None
             if route == "setter":
-                sc = RDScript(ctx["system"], [0, 1])
+                sc = ctx.setdefault("obj", RDScript(ctx["system"], [0, 1]))
                 return (lambda: setattr(sc, "t_sample", v)), None
             return (lambda: rdscript_from_dict({"system": _small_system_dict(), "t_sample": v})), None
         if route == "ctor":
             return (lambda: RDScript(ctx["system"], [0, 1], **{attr: v})), None
         if route == "setter":
-            sc = RDScript(ctx["system"], [0, 1])
+            sc = ctx.setdefault("obj", RDScript(ctx["system"], [0, 1]))
             return (lambda: setattr(sc, attr, v)), None
         return (lambda: rdscript_from_dict({"system": _small_system_dict(), "t_sample": [0, 1], attr: v})), None
     if field == "system.state":
@@ -614,18 +726,37 @@ def _dim_n(field):
     return 4
 
 
+def _dim_history():
+    """Process history: every dimension that is WRONG for one field is RIGHT for another one; all fields are used
+    validly (text and UnitValue, both unit systems) before the wrong dimensions are presented."""
+    for sys3 in (S0, S1):
+        for form in ("str", "UnitValue"):
+            for field, (right, kind, routes, forms) in FIELDS.items():
+                if kind != "scalar" or field in SOFT_FIELDS:
+                    continue
+                v = _value(form, sys3, right, 1)
+                if v is None:
+                    continue
+                try:
+                    _dim_attempt(field, routes[0], v, {"system": _small_system()})[0]()
+                except Exception:
+                    pass        # not an oracle: the valid counterparts are checked case by case
+
+
 def _dim(case, out):
     field, route, form = case["field"], case["route"], case["form"]
     right = FIELDS[field][0]
     n = _dim_n(field)
     only = case.get("only")
     site = "%s:dimension:%s:%s:%s" % (P, field, route, form)
+    _dim_history()
+    ctx = {"system": _small_system()}      # shared by all attempts of the case: setters act on the SAME objects
     # the valid counterpart (right dimension, both unit systems) must be accepted
+    valids = []
     for sys3 in (S0, S1):
         v = _value(form, sys3, right, n)
         if v is None:
             continue
-        ctx = {"system": _small_system()}
         f, _s = _dim_attempt(field, route, v, ctx)
         if field in SOFT_FIELDS:
             # the valid route itself is the subject of another property (C13: override dictionaries); when it
@@ -638,6 +769,15 @@ def _dim(case, out):
             out.count("valid_accepted:dimension")
             continue
         accept(out, "dimension", site, "%s via %s with %s" % (field, route, _show(v)), f)
+        valids.append((sys3, v))
+    state = {"k": 0}
+
+    def replay_valid():
+        sys3, v = valids[state["k"] % len(valids)]
+        state["k"] += 1
+        return _dim_attempt(field, route, _value(form, sys3, right, n), ctx)[0]()
+    inter = Interleave(out, "dimension", site, "%s via %s with the right dimension %s" % (field, route, right),
+                       replay_valid if valids else None, every=8)
     for k, wrong in enumerate(_wrong_dims(field)):
         for sys3 in (S0, S1):
             item = {"dim": list(wrong), "sys": list(sys3)}
@@ -647,7 +787,7 @@ def _dim(case, out):
             if v is None:
                 out.count("dimensionless_text_not_claimed")
                 continue
-            ctx = {"system": _small_system()}
+            inter.tick()
             f, s = _dim_attempt(field, route, v, ctx)
             reject(out, "dimension", site,
                    "%s via %s with %s (dimension %s, field dimension %s)" % (field, route, _show(v), wrong, right),
@@ -722,8 +862,8 @@ def _usym_routes():
     return routes
 
 
-def _usym_do(route, slot, sym):
-    """Callable performing the attempt to use `sym` as the unit of `slot`."""
+def _usym_do(route, slot, sym, shared=None):
+    """Callable performing the attempt to use `sym` as the unit of `slot` (setters: on the shared object)."""
     r = route["route"]
     good = USD()
     d = dict(good)
@@ -731,10 +871,10 @@ def _usym_do(route, slot, sym):
     if r == "UnitsSystem":
         return lambda: UnitsSystem(**{slot: sym})
     if r == "attribute-setter":
-        us = UnitsSystem()
+        us = shared if shared is not None else UnitsSystem()
         return lambda: setattr(us, slot, sym)
     if r == "item-setter":
-        us = UnitsSystem()
+        us = shared if shared is not None else UnitsSystem()
         return lambda: us.__setitem__(slot, sym)
     if r == "unitssystem_from_dict":
         return lambda: unitssystem_from_dict({slot: sym})
@@ -762,12 +902,31 @@ def _usym(case, out):
     syms = _bad_symbols(slot)
     if case.get("cap"):
         syms = syms[:case["cap"]]
+    # process history: every symbol that is wrong for this slot but right for another one is used validly first
+    for a in si.SPACE:
+        for b, c in zip(list(si.TIME) + ["s"], list(si.QUANTITY) + ["molecule"]):
+            UnitsSystem(space=a, time=b, quantity=c)
+    shared = UnitsSystem()
+    valid_syms = list(si.BASES[slot])
+    st = {"k": 0}
+
+    def replay_valid():
+        v = valid_syms[st["k"] % len(valid_syms)]
+        st["k"] += 1
+        return _usym_do(route, slot, v, shared)()
+    inter = Interleave(out, "unit-symbol", key, "%s with a valid %s unit" % (rname, slot), replay_valid, every=8)
     for sym in syms:
         if not _selected(only, sym):
             continue
+        inter.tick()
         where = (" at " + "/".join(str(p) for p in route["path"])) if "path" in route else ""
         reject(out, "unit-symbol", key, "%s%s with %r as the %s unit" % (rname, where, sym, slot),
-               _usym_do(route, slot, sym), sym)
+               _usym_do(route, slot, sym, shared), sym)
+        if route["route"] in ("attribute-setter", "item-setter"):
+            out.evals += 1
+            if getattr(shared, slot) not in valid_syms:
+                out.add(key + ":object-changed", "after the rejected assignment of %r the units system holds %s = %r"
+                        % (sym, slot, getattr(shared, slot)), sym)
     return True
 
 
@@ -858,6 +1017,8 @@ def _envlen(case, out):
             if not _selected(only, item):
                 continue
             vals = _container(kind, [i % 2 for i in range(ln)])
+            accept(out, "env-map-length", key, "%s %dx%dx%d cell_env=%s(%r) (replayed between invalid maps)"
+                   % (route, w, h, d, kind, good), attempt(_container(kind, good))[0])
             f, g = attempt(vals)
             reject(out, "env-map-length", key + ":" + tag,
                    "%s on a %dx%dx%d grid (%d cells) with a cell_env %s of length %d" % (route, w, h, d, n, kind, ln),
@@ -1015,6 +1176,19 @@ def _envidx(case, out):
     if f is not None:
         accept(out, "env-index", key, "%s on a %s with valid environment map %r (%d environments)"
                % (api, _space_tag(spec), good, nenv), f)
+    # process history: the index that is beyond THIS list is a valid index of a longer list, used first
+    big = _net(2, nenv + 2)
+    for c in range(n):
+        env = list(good)
+        env[c] = nenv + 1
+        try:
+            fb = _envidx_call(api, big, _space(spec, env), c)
+            if fb is not None and api != "LibRDEngine.setup":
+                fb()
+        except Exception:
+            pass
+    inter = Interleave(out, "env-index", key, "%s on a %s with the valid environment map %r" % (api, _space_tag(spec), good),
+                       _envidx_call(api, net, _space(spec, good), 0), every=4)
     for c in range(n):
         for bad in (nenv, nenv + 1):
             item = {"cell": c, "env": bad}
@@ -1026,6 +1200,7 @@ def _envidx(case, out):
             if f is None:
                 out.count("env_index_api_not_applicable")
                 continue
+            inter.tick()
             reject(out, "env-index", key,
                    "%s on a %s whose cell %d has environment index %d with %d environment(s) %r"
                    % (api, _space_tag(spec), c, bad, nenv, list(net.environments)), f, item)
@@ -1080,9 +1255,13 @@ def _enum(case, out):
     def run(valid_items, bad_items, mk, desc):
         for it in valid_items:
             accept(out, "enum:" + which, key, desc(it), mk(it))
-        for it in bad_items:
+        for i, it in enumerate(bad_items):
             if not _selected(only, it):
                 continue
+            if i % 4 == 0:
+                v = valid_items[(i // 4) % len(valid_items)]
+                accept(out, "enum:" + which, key, desc(v) + " (replayed between invalid inputs)", mk(v))
+                out.count("valid_interleaved:enum:" + which)
             reject(out, "enum:" + which, key, desc(it), mk(it), it)
 
     if which in ("boundary-condition", "axis"):
@@ -1348,6 +1527,51 @@ def _applicable(api, spec):
     return True
 
 
+def _restore(s, snap):
+    """Puts the raw arrays back through the public setters (after a VALID mutating call)."""
+    s.state = UnitArray(list(snap[0]), snap[1])
+    s.chemostats = list(snap[2])
+
+
+def _pos_history(spec, nsp, api, bads, out):
+    """Process history across objects: every non-negative position that is outside THIS space is a valid position
+    of a larger space of the same kind, and is used there first (same API where that is cheap, else
+    get_cell_index / get_state).  Not an oracle - only history."""
+    hi = 0
+    for _det, pj in bads:
+        if not isinstance(pj["v"], list):
+            hi = max(hi, int(pj["v"]))
+    if spec["type"] == "grid":
+        big_l = {"type": "grid", "w": hi + 1, "h": 1, "d": 1, "per": spec.get("per", 0)}
+        big_c = {"type": "grid", "w": spec["w"] + 1, "h": spec["h"] + 1, "d": spec["d"] + 1, "per": spec.get("per", 0)}
+    else:
+        big_l = {"type": "graph", "n": hi + 1}
+        big_c = None
+    models = {}
+    cheap = not api.startswith("kinetics.")
+    for _det, pj in bads:
+        v = pj["v"]
+        if (min(v) if isinstance(v, list) else v) < 0:
+            continue
+        bspec = big_c if isinstance(v, list) else big_l
+        if bspec is None:
+            continue
+        k = "c" if isinstance(v, list) else "l"
+        if k not in models:
+            bs, btr = _model(bspec, nsp)
+            models[k] = (bs, _accessor(api, bs, btr, 0) if cheap else None)
+        bs, bf = models[k]
+        p = _mk_pos(pj)
+        try:
+            bs.space.get_cell_index(p)
+            bs.get_state(0, p)
+            if bf is not None:
+                bf(0, p)
+        except Exception:
+            out.count("history_calls_raised:position")
+        out.count("history_calls:position")
+
+
 def _pos(case, out):
     spec, api, nsp = case["space"], case["api"], case["nsp"]
     tier = case.get("tier", "quick")
@@ -1375,11 +1599,27 @@ def _pos(case, out):
     other = 0
     f = _accessor(api, s, tr, other)
     start = _snap(s)
-    for det, pj in _bad_positions(spec, nsp, tier):
+    bads = _bad_positions(spec, nsp, tier)
+    _pos_history(spec, nsp, api, bads, out)
+    if "diffusion" in api:
+        fp = _accessor(api, s, tr, pair[1]) if pair is not None else None
+        valid = (lambda: fp(0, pair[0])) if pair is not None else None
+    else:
+        st = {"k": 0}
+
+        def valid():
+            c = st["k"] % n
+            st["k"] += 1
+            return f(species_list[c % len(species_list)], c)
+    inter = Interleave(out, "position", "%s:position:%s:%s" % (P, api, kind),
+                       "%s at a valid position of the same %s" % (api, _space_tag(spec)), valid, every=32,
+                       after=(lambda r: _restore(s, start)) if mutates else None)
+    for det, pj in bads:
         for sp in species_list:
             item = {"p": pj, "sp": sp}
             if not _selected(only, item):
                 continue
+            inter.tick()
             p = _mk_pos(pj)
             desc = "%s(%sposition=%s) on a %s with %d species" % (
                 api, ("species=%r, " % sp) if takes_sp else "", _show(p), _space_tag(spec), nsp)
@@ -1460,11 +1700,39 @@ def _species(case, out):
         for val in (i, lab, s0.network.species[i]):
             accept(out, "species", key0, "%s(species=%s) on a %s" % (api, _show(val), _space_tag(spec)),
                    lambda: f0(val, cells[0]))
+    # process history across objects: the labels / indices unknown HERE are known in a larger network, used first
+    try:
+        other = RDNetwork([Species(lab) for lab in ["A", "B", "C", "Z", "a", "AB", "X6", "X7", "X8", "X9"]], [],
+                          environments=["e0", "e1"])
+        osys = RDSystem(other, _space(spec))
+        for _det, sj in _bad_species(nsp):
+            try:
+                v = _mk_species(sj)
+                other.get_species_index(v)
+                osys.get_state(v, 0)
+                osys.get_chemostat(v, 0)
+            except Exception:
+                pass
+            out.count("history_calls:species")
+    except Exception:
+        out.count("history_unavailable:species")
+    start = _snap(s)
+    st = {"k": 0}
+
+    def valid():
+        k = st["k"]
+        st["k"] += 1
+        i = k % nsp
+        val = (i, s.network.species[i].label, s.network.species[i])[(k // nsp) % 3]
+        return f(val, cells[k % len(cells)])
+    inter = Interleave(out, "species", key0, "%s with a valid species of the same system" % api, valid, every=16,
+                       after=(lambda r: _restore(s, start)) if mutates else None)
     for det, sj in _bad_species(nsp):
         for c in cells:
             item = {"sp": sj, "cell": c}
             if not _selected(only, item):
                 continue
+            inter.tick()
             sp = _mk_species(sj)
             desc = "%s(species=%s%s) on a %s with species %r" % (
                 api, _show(sp), (", position=%d" % c) if takes_pos else "", _space_tag(spec),
@@ -1496,11 +1764,22 @@ def _reaction(case, out):
     s0, _ = _model(spec, nsp)
     for val in list(range(nr)) + [r.label for r in s0.network.reactions]:
         accept(out, "reaction", key0, "%s(reaction=%r)" % (api, val), lambda: call(s0, val, 0))
+    start = _snap(s)
+    st = {"k": 0}
+
+    def valid():
+        k = st["k"]
+        st["k"] += 1
+        vals = list(range(nr)) + [x.label for x in s.network.reactions]
+        return call(s, vals[k % len(vals)], k % s.space.size())
+    inter = Interleave(out, "reaction", key0, "%s with a valid reaction of the same system" % api, valid, every=16,
+                       after=(lambda r: _restore(s, start)) if api.endswith("(update=True)") else None)
     for det, r in _bad_reactions(nr):
         for c in range(s.space.size()):
             item = {"r": r, "cell": c}
             if not _selected(only, item):
                 continue
+            inter.tick()
             reject(out, "reaction", "%s:%s" % (key0, det),
                    "%s(reaction=%r, position=%d) on a %s with reactions %r"
                    % (api, r, c, _space_tag(spec), [x.label for x in s.network.reactions]),
@@ -1578,9 +1857,30 @@ def _cgmap(case, out):
     cands = [(c, m) for c, m in cands if c is not None] + [(c, m) for c, m in _cg_extra(n)]
     nvalid = len(CG_VALUES) ** n - (len(cands) - len(_cg_extra(n)))
     out.count("cg_maps_valid_skipped", nvalid)
+    # process history across objects: a map that mixes environments HERE is valid on the same grid with one
+    # environment, and is used there first
+    if route == "coarsegrain_system" and len(set(env)) > 1:
+        hs = _cg_system(dict(case, env=[0] * n))
+        for cls, m in cands:
+            if cls == "mixed-environments":
+                try:
+                    coarsegrain_system(hs, m)
+                except Exception:
+                    out.count("history_calls_raised:cgmap")
+                out.count("history_calls:cgmap")
+    vmaps = [m for m in valid if CG.classify(m, n, env) is None]
+    st = {"k": 0}
+
+    def replay_valid():
+        m = vmaps[st["k"] % len(vmaps)]
+        st["k"] += 1
+        return attempt(m)()
+    inter = Interleave(out, "cgmap", key0, "%s on %dx%d env %r with a valid map" % (route, w, h, env), replay_valid,
+                       every=64)
     for cls, m in cands:
         if not _selected(only, m):
             continue
+        inter.tick()
         reject(out, "cgmap", "%s:%s" % (key0, cls),
                "%s on a %dx%dx1 grid (environments %r) with the invalid map %r (%s)" % (route, w, h, env, m, cls),
                attempt(m), m, s)
@@ -1696,9 +1996,14 @@ def _spaces(tier):
     sp.append(("dim: (field, route, form) x wrong dimensions (26 cube offsets; + the 3 other reaction orders for rate "
                "constants) x 2 unit systems", dims, 4))
     # --- dictionary keys
-    sp.append(("keys: one case per (top-level reader, base dictionary) x every reader dictionary inside it x "
-               "(unknown keys %r, every alias pair, every mandatory key)" % (UNKNOWN_KEYS,),
-               [{"sub": "keys", "top": name} for name, _r, _m in TOPS], 1))
+    sp.append(("keys: one case per (top-level reader, base dictionary, mode) x every reader dictionary inside it x "
+               "(plain: unknown keys %r, every alias pair, every mandatory key; misplaced-*: EVERY key legal for another "
+               "kind of dictionary, presented after a valid dictionary of every kind has been parsed in this process in "
+               "forward order (twice: second pass) / reverse order / right after a dictionary of the kind that owns "
+               "the key)" % (UNKNOWN_KEYS,),
+               [{"sub": "keys", "top": name, "mode": mode} for mode in reversed(KEY_MODES) for name, _r, _m in TOPS
+                if thorough or mode in ("plain", "misplaced-after-all") or name not in HEAVY_TOPS], 1))
+    sp.insert(0, sp.pop())      # the longest cases first (load balance)
     # --- unit symbols
     us = []
     for route in _usym_routes():
@@ -1785,7 +2090,9 @@ def run(ctx):
     ctx.rule("every case of each listed sub-space is enumerated in fixed order on the real code; a case is one "
              "(base model, site/route) and carries ALL invalid inputs of its class for that site (counters "
              "invalid_inputs:<sub>); every site is first exercised with its valid counterpart (valid_accepted:*); "
-             "non-trivial = the case presented at least one invalid input")
+             "non-trivial = the case presented at least one invalid input; process history is produced explicitly "
+             "inside each case (valid dictionaries of every kind before misplaced keys; valid calls replayed between "
+             "invalid ones on the same objects: counters valid_interleaved:*, history_calls:*)")
     ctx.assume("alias tables / mandatory keys as written in this module from documentation/json_and_dict_doc.rst and "
                "the readers' declared synonym lists; names on which documentation and code disagree are not used; "
                "dimensionless quantity TEXT ('1.5') given to a dimensioned field, u-spellings, blank-padded symbols, "
